@@ -540,6 +540,79 @@ func sharedStep(res *vkit.Result, p Profile, callers, trials int) {
 	res.Eval(vkit.JSON(c), len(want) >= 2)
 }
 
+// sharedBudget: what the instances of a pool do with its shared profile — ask how many requests
+// are left, then take one — is done by several callers at once on a small profile of every kind.
+// The moment the profile runs out is met on every trial (some callers being refused while others
+// ask what is left). The profile holds as many requests as its integral says: exactly those, at
+// those instants, are handed out, and afterwards nothing is left.
+func sharedBudget(res *vkit.Result, p Profile, callers, trials int) {
+	t0 := time.Unix(1700000000, 0)
+	ref, err := build(p)
+	if err != nil {
+		res.Inconclusive(true, "cannot build %v: %v", p, err)
+		return
+	}
+	ref.Start(t0)
+	var want []int64
+	for {
+		t, ok := ref.Next()
+		if !ok {
+			break
+		}
+		want = append(want, t.Sub(t0).Nanoseconds())
+	}
+	c := map[string]any{"profile": p, "concurrent_callers": callers, "each_caller": "loop: Left() == 0 ? stop : Next()"}
+	for trial := 0; trial < trials; trial++ {
+		s, _ := build(p)
+		s.Start(t0)
+		got := make([][]int64, callers)
+		var wg sync.WaitGroup
+		start := make(chan struct{})
+		for g := 0; g < callers; g++ {
+			wg.Add(1)
+			go func(g int) {
+				defer wg.Done()
+				<-start
+				for k := 0; k < 3*len(want)+10; k++ {
+					if s.Left() == 0 {
+						// what an instance does when it finds the profile finished: it goes away;
+						// a second look must not find the profile refilled
+						if k%2 == 0 {
+							runtime.Gosched()
+							continue
+						}
+						return
+					}
+					if t, ok := s.Next(); ok {
+						got[g] = append(got[g], t.Sub(t0).Nanoseconds())
+					}
+				}
+			}(g)
+		}
+		close(start)
+		wg.Wait()
+		var all []int64
+		for _, l := range got {
+			all = append(all, l...)
+		}
+		sort.Slice(all, func(i, j int) bool { return all[i] < all[j] })
+		bad := len(all) != len(want)
+		for i := 0; !bad && i < len(all); i++ {
+			bad = all[i] != want[i]
+		}
+		if bad {
+			res.Violate("C01/"+p.Kind+"/shared/budget", fmt.Sprintf("the profile holds %d operations; %d concurrent callers asking Left and taking Next were handed %d: %v (ns after start), the profile is %v", len(want), callers, len(all), head(all, 12), head(want, 12)), c)
+			break
+		}
+		if l := s.Left(); l != 0 {
+			res.Violate("C01/"+p.Kind+"/shared/budget", fmt.Sprintf("all %d operations were handed out, Left() = %d", len(want), l), c)
+			break
+		}
+		res.Count("shared_budget_drains", 1)
+	}
+	res.Eval(vkit.JSON(c), len(want) >= 2)
+}
+
 func head(xs []int64, n int) []int64 {
 	if len(xs) > n {
 		return xs[:n]
@@ -634,6 +707,14 @@ func main() {
 	} {
 		lazyStart(res, p, 8, vkit.N(1500, 40000))
 		lazyStart(res, p, 2, vkit.N(500, 10000))
+	}
+	for _, p := range []Profile{
+		{Kind: "once", Times: 6},
+		{Kind: "const", Ops: 4, Duration: 15e8},
+		{Kind: "line", From: 2, To: 6, Duration: 15e8},
+		{Kind: "step", From: 1, To: 3, Step: 1, Duration: 1e9},
+	} {
+		sharedBudget(res, p, 8, vkit.N(6000, 100000))
 	}
 	concurrentBuild(res, vkit.N(400, 8000))
 	concurrentFactory(res, vkit.N(300, 6000))
